@@ -297,6 +297,9 @@ func (x *Exec) checkRun(rec *StepRecord) {
 			}
 		}
 		if !injected {
+			if os.Getenv("VERIF_TRACE_STEPS") != "" { // debugging aid
+				fmt.Fprintln(os.Stderr, resp.Panic)
+			}
 			x.violate(x.Sc.Property, "X0", "panic", firstLine(resp.Panic), nil)
 		} else {
 			// the process died by a panic inside a generator callback, i.e. before the save
